@@ -24,6 +24,60 @@ def gen_inputs(ctx):
     return gen_tv(ctx, 1500 if ctx.thorough else 350)
 
 
+def stale_poke(t, x):
+    """some mutation through view x of type t"""
+    k = t[0]
+    if k == "cont":
+        f = t[1][0]
+        setattr(x, "f0", to_py(f, gen_nonzero(f)))
+    elif k == "list":
+        if len(x) < t[2]:
+            x.append(to_py(t[1], gen_nonzero(t[1])))
+        elif len(x):
+            x.pop()
+    elif k == "vec":
+        x[0] = to_py(t[1], gen_nonzero(t[1]))
+    elif k == "bitlist":
+        if len(x) < t[1]:
+            x.append(True)
+        elif len(x):
+            x.pop()
+    elif k == "bitvec":
+        x[0] = not bool(x[0])
+    elif k == "union":
+        o = union_opt(t, 0)
+        x.change(selector=0, value=None if o is None else to_py(o, gen_nonzero(o)))
+
+
+def gen_nonzero(t):
+    """a fixed non-default value of type t"""
+    k = t[0]
+    if k == "uint":
+        return 1
+    if k == "bool":
+        return True
+    if k == "bitvec":
+        return "1" * t[1]
+    if k == "bitlist":
+        return "1" * min(t[1], 3)
+    if k == "bytevec":
+        return "ab" * t[1]
+    if k == "bytelist":
+        return "ab" * min(t[1], 3)
+    if k == "vec":
+        return [gen_nonzero(t[1]) for _ in range(t[2])]
+    if k == "list":
+        return [gen_nonzero(t[1]) for _ in range(min(t[2], 2))]
+    if k == "cont":
+        return [gen_nonzero(f) for f in t[1]]
+    if k == "union":
+        n = union_count(t)
+        sel = n - 1
+        o = union_opt(t, sel)
+        return [sel, None if o is None else gen_nonzero(o)]
+    raise ValueError(t)
+
+
 def mutate_into(t, v):
     """start from the default value and mutate it, element by element, into v"""
     C = T(t)
@@ -50,7 +104,14 @@ def mutate_into(t, v):
             x.append(mutate_into(t[1], e) if i % 3 != 0 else to_py_alt(t[1], e))
         if len(v) < t[2]:                 # one more than needed (a non-default element where there is one), popped again
             x.append(mutate_into(t[1], v[-1]) if v else T(t[1]).default(None) if is_basic(t[1]) else T(t[1])())
+            stale = x[len(x) - 1] if not is_basic(t[1]) and t[1][0] not in ("bytevec", "bytelist") else None
             x.pop()
+            if stale is not None:
+                # a write through the child view of the popped element must not reach the list any more
+                try:
+                    stale_poke(t[1], stale)
+                except Exception:
+                    pass
     elif k == "cont":
         for i, (f, e) in enumerate(zip(t[1], v)):
             setattr(x, "f%d" % i, mutate_into(f, e) if i % 3 != 2 else to_py_alt(f, e))
